@@ -29,7 +29,10 @@ def run(ctx):
             desc, path = fs.make(rng, **opts)
             want = dwcorr.oracle_raw(desc)
             recs, crashes = fs.query(path, [dwcorr.RAW_QUERY, "raw unit offset value", "raw unit root offset value",
-                                            "raw entry pos"])
+                                            "raw entry pos",
+                                            # the same questions asked last DIE first and last unit first (caches keyed per unit)
+                                            "[raw entry] relem [offset value, [parent offset value], [child offset value]]",
+                                            "[raw unit] relem [offset value, [entry [offset value, [parent offset value]]]]"])
             if crashes or recs[0].err:
                 ctx.violation("the library failed on a generated forest (%d units): %s" % (len(desc["units"]), recs[0].err or crashes),
                               {"stream": "C02-forest", "input": fs.inp(desc, path, dwcorr.RAW_QUERY)})
@@ -52,6 +55,33 @@ def run(ctx):
                 problems.append("unit roots %r" % roots)
             if poss != [str(i) for i in range(len(want))]:
                 problems.append("`raw entry` positions are not 0..n-1: %r" % poss[:10])
+            if not recs[4].err:
+                import json as _json
+                rev = [dwcorr.normalize(r) for r in recs[4].res]
+                wrev = []
+                for w in reversed(want):
+                    x = _json.loads(w)
+                    wrev.append(_json.dumps([x[0], x[2], x[4]], separators=(",", ":")))
+                if rev != wrev:
+                    j = next((j for j, (a, b) in enumerate(zip(rev, wrev)) if a != b), min(len(rev), len(wrev)))
+                    problems.append("asked in reverse section order, DIE [offset, parent, children] = %s, the file holds %s"
+                                    % (rev[j] if j < len(rev) else None, wrev[j] if j < len(wrev) else None))
+            if not recs[5].err:
+                import json as _json
+                revu = [_json.loads(dwcorr.normalize(r)) for r in recs[5].res]
+                byunit = {}
+                for u in desc["units"]:
+                    ents = []
+
+                    def walk_u(d, par):
+                        ents.append([d["offset"], [par] if par is not None else []])
+                        for c in d["children"]:
+                            walk_u(c, d["offset"])
+                    walk_u(u["root"], None)
+                    byunit[u["offset"]] = ents
+                wantu = [[u["offset"], byunit[u["offset"]]] for u in reversed(desc["units"])]
+                if revu != wantu:
+                    problems.append("units asked last first: a unit's [offset, entries with parents] differ from the file")
             if problems:
                 ctx.violation("forest with %d units: %s" % (len(desc["units"]), "; ".join(problems)),
                               {"stream": "C02-forest", "input": fs.inp(desc, path, dwcorr.RAW_QUERY), "got": got[:50],
